@@ -82,14 +82,14 @@ def _hung(ops):
 
 
 def _run_random(job):
-    idx, ops, present, seed = job
+    idx, ops, present, seed, kind = job
     import random
 
     from .. import cache_sched
 
     d = scratch(f'c15-{os.getpid()}') / f'r{idx}'
     try:
-        out = run_forked(cache_sched.execute, None, ops, present, str(d), None, 'the key', random.Random(seed), timeout=40)
+        out = run_forked(cache_sched.execute, None, ops, present, str(d), None, 'the key', random.Random(seed), kind, timeout=40)
     except ChildCrashed:
         out = _hung(ops)
     finally:
@@ -104,7 +104,8 @@ def judge(beh, out):
     bad = []
     ops = beh['ops']
     done = set(out['computes']) | ({0} if beh['present'] else set())
-    allowed = [value_of(w) for w in done]
+    kind = out.get('kind', 'json')
+    allowed = [value_of(w) for w in done] if kind == 'json' else [{'by': w} for w in done]
     sched = ' '.join(f'{c}:{l}' for c, l in beh['steps'])
     if out['hung']:
         bad.append(('hung', f'callers {out["hung"]} never returned (ops {ops}) under schedule {sched}'))
@@ -116,7 +117,11 @@ def judge(beh, out):
         elif r[0] == 'val' and r[1] not in allowed:
             bad.append(('torn-or-foreign-value', f'caller {c} ({ops[c]}) returned {str(r[1])[:80]!r}, not a value of a '
                                                   f'completed computation, under schedule {sched}'))
-    if out['file'] is not None:
+    if out['file'] is not None and kind != 'json':
+        if out.get('final_ok') is False:
+            bad.append(('final-file', f'[{kind}] at quiescence the stored entry is {out["file"]} - not a completed value, '
+                                      f'schedule {sched}'))
+    elif out['file'] is not None:
         try:
             doc = json.loads(out['file'])
             if doc.get('value') not in allowed:
@@ -182,13 +187,14 @@ def run(ctx):
     for r in range(12 if quick else 150):
         for mi, m in enumerate(mixes):
             for present in (True, False):
-                rjobs.append((len(rjobs), m, present, ctx.seed * 100003 + len(rjobs)))
+                kind = ('json', 'json', 'numpy', 'df')[(r + mi) % 4]
+                rjobs.append((len(rjobs), m, present, ctx.seed * 100003 + len(rjobs), kind))
     rout = pmap(_run_random, rjobs, workers=8)
     ctx.traces += len(rjobs)
     ctx.extra['random_schedules_of_real_yield_points'] = len(rjobs)
     distinct_logs = set()
     for idx, o in rout:
-        _, m, present, _ = rjobs[idx]
+        _, m, present, _, rkind = rjobs[idx]
         distinct_logs.add(json.dumps(o['log']))
         b = {'steps': o['log'], 'ops': m, 'present': present, 'final': None}
         ctx.case(json.dumps([o['log'], m, present]), nontrivial=len(m) > 1)
